@@ -106,11 +106,14 @@ func (g *gen) recv(arrOnly bool) Recv {
 			}
 		case 7:
 			rc.length = vp(Pick(r, []V{vStr(fmt.Sprint(n)), vNum(fn + 0.7), vNum(math.NaN()), vNull, vBool(true), vNum(-fn - 4294967296 + 2*fn), vNum(4294967296 + fn),
-				vNum(math.Inf(1)), vNum(-0.5), vUndef, vStr("")}))
+				vNum(math.Inf(1)), vNum(-0.5), vUndef, vStr(""),
+				vNum(9223372036854775808), vNum(-9223372036854775808), vNum(18446744073709551616), vNum(9223372036854777856), vNum(1e300), vNum(9007199254740994)}))
 		case 8:
 			rc.length = nil
 		case 9:
-			rc.length = vp(Pick(r, []V{vNum(-1), vNum(4294967295), vNum(4294967294), vNum(-2), vNum(8589934591)}))
+			rc.length = vp(Pick(r, []V{vNum(-1), vNum(4294967295), vNum(4294967294), vNum(-2), vNum(8589934591),
+				vNum(9223372036854775808), vNum(-9223372036854775808), vNum(18446744073709551616), vNum(9223372036854777856), vNum(-9223372036854777856),
+				vNum(1e300), vNum(-1e300), vNum(9007199254740994), vNum(36893488147419103232 + 8192)}))
 		}
 	}
 	if r.Intn(5) == 0 {
@@ -293,7 +296,16 @@ func (g *gen) indexKey(n int64) Key {
 func (g *gen) elemDesc() Desc {
 	r := g.r
 	d := Desc{v: vp(g.val())}
-	switch r.Intn(5) {
+	ob := func() *bool {
+		switch r.Intn(3) {
+		case 0:
+			return nil
+		case 1:
+			return bp(true)
+		}
+		return bp(false)
+	}
+	switch r.Intn(8) {
 	case 0: // value only
 	case 1:
 		d.w, d.e, d.c = bp(r.Intn(2) == 0), bp(r.Intn(2) == 0), bp(r.Intn(2) == 0)
@@ -307,6 +319,15 @@ func (g *gen) elemDesc() Desc {
 		} else {
 			d.w = bp(false)
 		}
+	case 5: // generic descriptor: neither value nor writable (8.12.9 step 8; on a new name it creates an undefined, all-false property)
+		d.v, d.e, d.c = nil, ob(), ob()
+	case 6: // writable without a value
+		d.v, d.w, d.e, d.c = nil, bp(r.Intn(2) == 0), ob(), ob()
+	default: // any subset of the four fields
+		if r.Intn(2) == 0 {
+			d.v = nil
+		}
+		d.w, d.e, d.c = ob(), ob(), ob()
 	}
 	return d
 }
@@ -325,15 +346,18 @@ func (g *gen) mutation(rc Recv) Op {
 		return Op{kind: 'p', k: g.indexKey(n), d: g.elemDesc()}
 	case 12, 13:
 		d := Desc{}
-		switch r.Intn(4) {
+		switch r.Intn(6) {
 		case 0:
 			d.w = bp(false)
 		case 1:
 			d.v, d.w = vp(g.lengthValue(n)), bp(false)
-		default:
+		case 2: // generic / attribute-only descriptors on length (non-configurable, non-enumerable on arrays)
+			d = g.elemDesc()
+			d.v = nil
+		case 3:
+			d = g.elemDesc()
 			d.v = vp(g.lengthValue(n))
-		}
-		if !rc.arr && d.v == nil {
+		default:
 			d.v = vp(g.lengthValue(n))
 		}
 		return Op{kind: 'p', k: kName("length"), d: d}
@@ -508,8 +532,8 @@ func (g *gen) ctorCase() {
 	g.runCtor(args, r.Intn(2) == 0, "constructor")
 }
 
-// ---------- pinned witnesses (run first on every run): open findings 2-4 expect otto's deviation,
-// repaired findings 1, 5-9 are regression cases that expect the ES5 result ----------
+// ---------- pinned witnesses (run first on every run): all nine findings are repaired in /repo;
+// these are regression cases that expect the ES5 result ----------
 
 func nums(xs ...float64) []*V {
 	a := make([]*V, len(xs))
@@ -526,15 +550,15 @@ func (g *gen) pinned() {
 	g.runHist(arr(nil), []Op{{kind: 's', k: kName("01"), v: vNum(1)}}, "pinned")
 	g.runHist(arr(nil), []Op{{kind: 's', k: kName("+1"), v: vNum(1)}}, "pinned")
 	g.runHist(arr(nums(7)), []Op{{kind: 's', k: kName("-0"), v: vNum(1)}}, "pinned")
-	// 2 holes materialised in result arrays
+	// 2 (fixed 22c1182) holes stay holes in result arrays
 	g.runHist(arr([]*V{vp(vNum(1)), nil, vp(vNum(3))}), []Op{{kind: 'c', m: 5, args: []Arg{av(vNum(0))}}}, "pinned")
 	g.runHist(arr([]*V{vp(vNum(1)), nil, vp(vNum(3))}), []Op{{kind: 'c', m: 17}}, "pinned")
 	g.runHist(arr([]*V{vp(vNum(1)), nil, vp(vNum(3))}), []Op{{kind: 'c', m: 13, args: []Arg{cb}}}, "pinned")
 	g.runHist(arr([]*V{vp(vNum(1)), nil, vp(vNum(3))}), []Op{{kind: 'c', m: 6, args: []Arg{av(vNum(0)), av(vNum(3))}}}, "pinned")
-	// 3 reduce over holes only
+	// 3 (fixed 336a3bd) reduce over holes only throws TypeError
 	g.runHist(arr([]*V{nil, nil}), []Op{{kind: 'c', m: 15, args: []Arg{cb}}}, "pinned")
 	g.runHist(arr([]*V{nil, nil}), []Op{{kind: 'c', m: 16, args: []Arg{cb}}}, "pinned")
-	// 4 reduceRight index argument
+	// 4 (fixed 336a3bd) reduceRight passes a numeric index
 	g.runHist(arr(nums(5, 7)), []Op{{kind: 'c', m: 16, args: []Arg{cb}}}, "pinned")
 	// 5 (fixed 5af2855) splice() deletes nothing
 	g.runHist(arr(nums(1, 2, 3)), []Op{{kind: 'c', m: 6}}, "pinned")
